@@ -82,20 +82,23 @@ where
                 .await
                 .map_err(|err| (None, OrdererError::OrdererStore(err)))?
             {
+                // Look up the operation inside of the transaction and commit as the very last step:
+                // if this future gets dropped at any point before the item stays in the ready
+                // queue and is handed out by a later call.
+                let operation = self
+                    .store
+                    .get_operation_tx(&id)
+                    .await
+                    .map_err(|err| (None, OrdererError::OperationStore(err)))?;
+
                 self.store
                     .commit(permit)
                     .await
                     .map_err(|err| (None, OrdererError::Transaction(err)))?;
 
-                return match self
-                    .store
-                    .get_operation(&id)
-                    .await
-                    .map_err(OrdererError::OperationStore)
-                {
-                    Ok(Some(operation)) => Ok(operation),
-                    Ok(None) => Err((None, OrdererError::StoreInconsistency(id))),
-                    Err(err) => Err((None, err)),
+                return match operation {
+                    Some(operation) => Ok(operation),
+                    None => Err((None, OrdererError::StoreInconsistency(id))),
                 };
             }
 
